@@ -32,6 +32,9 @@ type c08p struct {
 	// rows: MaxBufferedRows (default 1): with 2, two batches share one flush request, so a
 	// request carries several waiters
 	rows int
+	// kind of producer 0's first batch: "" one valid row | "empty" | "nilrow" (accepted, then
+	// answered by the ingest worker itself: nil for an empty batch, an error for a rejected one)
+	kind string
 }
 
 func (p c08p) name() string {
@@ -44,6 +47,9 @@ func (p c08p) name() string {
 	}
 	if p.rows > 1 {
 		n += fmt.Sprintf("-rows%d", p.rows)
+	}
+	if p.kind != "" {
+		n += "-" + p.kind
 	}
 	return n
 }
@@ -108,11 +114,12 @@ func c08Root(p c08p) func() {
 			name     string
 			done     chan error
 			accepted vapi.Cell[bool]
+			rows     []map[string]any
 		}
 		var recs []*rec
 		var wg sync.WaitGroup
 		produce := func(name string, unbuf bool) *rec {
-			r := &rec{name: name}
+			r := &rec{name: name, rows: []map[string]any{{"id": name}}}
 			if unbuf {
 				r.done = make(chan error)
 			} else {
@@ -122,7 +129,7 @@ func c08Root(p c08p) func() {
 		}
 		call := func(r *rec) error {
 			vapi.Log("call %s", r.name)
-			err := eng.IngestRows(bg, []map[string]any{{"id": r.name}}, r.done)
+			err := eng.IngestRows(bg, r.rows, r.done)
 			switch {
 			case err == nil:
 				vapi.Log("ret %s ok", r.name)
@@ -137,6 +144,12 @@ func c08Root(p c08p) func() {
 		for i := 0; i < p.producers; i++ {
 			r1 := produce(fmt.Sprintf("P%da", i), p.abandoned && i == 0)
 			r2 := produce(fmt.Sprintf("P%db", i), false)
+			if i == 0 && p.kind == "empty" {
+				r1.rows = []map[string]any{}
+			}
+			if i == 0 && p.kind == "nilrow" {
+				r1.rows = []map[string]any{nil}
+			}
 			recs = append(recs, r1, r2)
 			var more []*rec
 			if i == 0 {
@@ -214,6 +227,11 @@ func c08Root(p c08p) func() {
 				for _, r := range recs {
 					if a, _ := r.accepted.Get(); a && cap(r.done) > 0 && !answered(r) {
 						vapi.Fail("C08: Stop returned nil but accepted batch %s has not been answered", r.name)
+					}
+					// nobody ever receives from an abandoned (unbuffered) channel: its batch cannot
+					// have been answered, so a nil return is never right once it was accepted
+					if a, _ := r.accepted.Get(); a && cap(r.done) == 0 {
+						vapi.Fail("C08: Stop returned nil but accepted batch %s (unbuffered done channel, no receiver yet) has not been answered", r.name)
 					}
 				}
 			} else {
@@ -300,18 +318,21 @@ func init() {
 		var ps []c08p
 		if tier == "quick" {
 			ps = []c08p{
-				{"bg", "", false, 2, 1, false, 0, false, 0},
-				{"deadline", "CreateFile", false, 2, 1, false, 0, false, 0},
-				{"deadline", "Update", true, 2, 1, false, 0, false, 0},
-				{"expired", "CreateFile", false, 2, 2, false, 0, false, 0},
-				{"deadline", "", false, 2, 1, true, 0, false, 0},
+				{"bg", "", false, 2, 1, false, 0, false, 0, ""},
+				{"deadline", "CreateFile", false, 2, 1, false, 0, false, 0, ""},
+				{"deadline", "Update", true, 2, 1, false, 0, false, 0, ""},
+				{"expired", "CreateFile", false, 2, 2, false, 0, false, 0, ""},
+				{"deadline", "", false, 2, 1, true, 0, false, 0, ""},
 				// a saturated pipeline: callers blocked inside IngestRows when Stop begins
-				{"deadline", "CreateFile", false, 2, 1, false, 4, false, 0},
+				{"deadline", "CreateFile", false, 2, 1, false, 4, false, 0, ""},
 				// two waiters per flush request, the first one abandoned
 				{ctx: "deadline", producers: 2, ib: 2, abandoned: true, rows: 2},
+				// answers the ingest worker sends itself (empty and rejected batches)
+				{ctx: "deadline", producers: 2, ib: 1, abandoned: true, kind: "empty"},
+				{ctx: "deadline", producers: 2, ib: 1, abandoned: true, kind: "nilrow"},
 				// Flush racing Stop
-				{"bg", "", false, 1, 1, false, 0, true, 0},
-				{"deadline", "CreateFile", false, 1, 2, false, 0, true, 0},
+				{"bg", "", false, 1, 1, false, 0, true, 0, ""},
+				{"deadline", "CreateFile", false, 1, 2, false, 0, true, 0, ""},
 			}
 		} else {
 			for _, c := range []string{"bg", "deadline", "expired", "custom"} {
@@ -325,24 +346,28 @@ func init() {
 						}
 						for _, np := range []int{2, 3} {
 							for _, ib := range []int{1, 2} {
-								ps = append(ps, c08p{c, w, honor, np, ib, false, 0, false, 0})
+								ps = append(ps, c08p{c, w, honor, np, ib, false, 0, false, 0, ""})
 							}
 						}
 					}
 				}
 				if c != "bg" {
+					for _, k := range []string{"empty", "nilrow"} {
+						ps = append(ps, c08p{ctx: c, producers: 2, ib: 1, abandoned: true, kind: k}, c08p{ctx: c, producers: 2, ib: 2, abandoned: true, kind: k},
+							c08p{ctx: c, wedge: "CreateFile", producers: 2, ib: 1, abandoned: true, kind: k})
+					}
 					ps = append(ps, c08p{ctx: c, producers: 2, ib: 2, abandoned: true, rows: 2}, c08p{ctx: c, wedge: "Update", producers: 2, ib: 1, abandoned: true, rows: 2},
 						c08p{ctx: c, producers: 3, ib: 2, abandoned: true, rows: 3})
 				}
 				if c == "bg" {
-					ps = append(ps, c08p{c, "", false, 1, 1, false, 0, true, 0}, c08p{c, "", false, 2, 2, false, 0, true, 0})
+					ps = append(ps, c08p{c, "", false, 1, 1, false, 0, true, 0, ""}, c08p{c, "", false, 2, 2, false, 0, true, 0, ""})
 				}
 				if c != "bg" {
-					ps = append(ps, c08p{c, "", false, 2, 1, true, 0, false, 0}, c08p{c, "CreateFile", false, 2, 1, true, 0, false, 0},
-						c08p{c, "", false, 1, 1, false, 0, true, 0}, c08p{c, "CreateFile", false, 2, 1, false, 0, true, 0}, c08p{c, "Update", true, 1, 2, false, 0, true, 0})
+					ps = append(ps, c08p{c, "", false, 2, 1, true, 0, false, 0, ""}, c08p{c, "CreateFile", false, 2, 1, true, 0, false, 0, ""},
+						c08p{c, "", false, 1, 1, false, 0, true, 0, ""}, c08p{c, "CreateFile", false, 2, 1, false, 0, true, 0, ""}, c08p{c, "Update", true, 1, 2, false, 0, true, 0, ""})
 					for _, bl := range []int{4, 5} {
-						ps = append(ps, c08p{c, "CreateFile", false, 2, 1, false, bl, false, 0}, c08p{c, "Update", true, 2, 1, false, bl, false, 0},
-							c08p{c, "", false, 2, 1, true, bl, false, 0}, c08p{c, "CreateFile", false, 3, 1, false, bl, false, 0})
+						ps = append(ps, c08p{c, "CreateFile", false, 2, 1, false, bl, false, 0, ""}, c08p{c, "Update", true, 2, 1, false, bl, false, 0, ""},
+							c08p{c, "", false, 2, 1, true, bl, false, 0, ""}, c08p{c, "CreateFile", false, 3, 1, false, bl, false, 0, ""})
 					}
 				}
 			}
